@@ -237,8 +237,8 @@ def judge(path, prop, keys, hdrs):
                         viol("verify-below-floor:%s" % (FAM.get(h, "?")), "verification succeeded with a key below the strength floor", ev)
                     # converse: proper config, valid signature, at/above the floor => must verify
                     if eff_key and adm and 1 <= P <= 14 and h == P and refvalid and floor_ok(P, key):
-                        if prov == 1 and (P == 13 or key[3] == "secp256k1"):
-                            cnt("unjudged_secp256k1_gnutls")   # GnuTLS has no secp256k1: provider does not support the key
+                        if prov == 1 and (P == 13 or (key[1] == K_EC and key[3] not in ("P-256", "P-384", "P-521"))):
+                            cnt("unjudged_secp256k1_gnutls")   # GnuTLS has no secp256k1 (and not all brainpool curves): provider does not support the key
                         else:
                             cnt("at_floor_expected_accept")
                             if not accepted:
@@ -301,7 +301,7 @@ def judge(path, prop, keys, hdrs):
                     if produced and eff_key and not (1 <= P <= 14 and floor_ok(P, key)):
                         viol("generate-below-floor:%s" % FAM.get(P, "?"), "signing succeeded with a key below the strength floor", ev)
                     if allowed and eff_key:
-                        if prov == 1 and (P == 13 or key[3] == "secp256k1"):
+                        if prov == 1 and (P == 13 or (key[1] == K_EC and key[3] not in ("P-256", "P-384", "P-521"))):
                             cnt("unjudged_secp256k1_gnutls")
                         else:
                             cnt("at_floor_expected_produce")
